@@ -24,6 +24,9 @@ package backtrace
 //    the node is not expanded;
 //  - a return-value, call, synthetic or bound-variable node that is expanded has its
 //    incoming edges followed (In() is consulted);
+//  - flows inside a function keep the calling context: every node pushed from a
+//    synthetic node, a return-value node or a write of a global carries the current
+//    call stack and closure stack;
 //  - the jump from a READ of a global to the places where the global is written
 //    (any function, any calling context) drops the call stack: every node pushed in
 //    such an iteration has a nil call-stack trace. (A global write node is recognised
@@ -38,6 +41,8 @@ package backtrace
 //@   loop 1 body call_in_edges: istype(cur.Node, *dataflow.CallNode) && expanded() ==> called(CallNode.In, _)
 //@   loop 1 body synthetic_in_edges: istype(cur.Node, *dataflow.SyntheticNode) && expanded() ==> called(SyntheticNode.In, _)
 //@   loop 1 body bound_var_in_edges: istype(cur.Node, *dataflow.BoundVarNode) && expanded() ==> called(BoundVarNode.In, _)
+//@   loop 1 body synthetic_keeps_context: istype(cur.Node, *dataflow.SyntheticNode) ==> !called(addNext, _, _, _, _, where(x, x.Trace != cur.Trace || x.ClosureTrace != cur.ClosureTrace), _, _, _)
+//@   loop 1 body return_keeps_context: istype(cur.Node, *dataflow.ReturnValNode) ==> !called(addNext, _, _, _, _, where(x, x.Trace != cur.Trace || x.ClosureTrace != cur.ClosureTrace), _, _, _)
 //@   loop 1 body global_read_drops_call_stack: istype(cur.Node, *dataflow.AccessGlobalNode) && !called(AccessGlobalNode.In, _) ==> !called(addNext, _, _, _, _, where(x, x.Trace != nil), _, _, _)
 
 // addNext either pushes exactly one new visitor node, built from the given graph node
